@@ -73,10 +73,22 @@ impl EnumTable {
     #[verifier::external_body] pub fn get(&self, k: &TastIdent) -> (r: Option<&EnumDef>)
         ensures r matches Some(d) ==> self.def_of(k.0@) == Some(*d), r is None ==> self.def_of(k.0@) is None { unimplemented!() }
 }
+impl EnumTable {
+    #[verifier::external_body] pub fn contains_key(&self, k: &TastIdent) -> (r: bool) ensures r == (self.def_of(k.0@) is Some) { unimplemented!() }
+}
+#[verifier::external_body] pub struct StructTable { _p: u64 }      // IndexMap<TastIdent, StructDef>, keyed by the TEXT of the name
+impl StructTable {
+    pub uninterp spec fn has(&self, name: Seq<char>) -> bool;
+    #[verifier::external_body] pub fn contains_key(&self, k: &TastIdent) -> (r: bool) ensures r == self.has(k.0@) { unimplemented!() }
+}
 impl PkgEnv {
     pub uninterp spec fn enum_table(&self) -> EnumTable;
     #[verifier::external_body] pub fn enums(&self) -> (r: &EnumTable) ensures *r == self.enum_table() { unimplemented!() }
+    pub uninterp spec fn struct_table(&self) -> StructTable;
+    #[verifier::external_body] pub fn structs(&self) -> (r: &StructTable) ensures *r == self.struct_table() { unimplemented!() }
 }
+// C17: the package declares an enum or a struct of that name (`Name::m(x)` then has two readings if a trait is called Name as well)
+pub open spec fn names_a_type(e: PkgEnv, n: Seq<char>) -> bool { e.enum_table().def_of(n) is Some || e.struct_table().has(n) }
 #[verifier::external_body] pub fn string_eq_str(a: &String, b: &str) -> (r: bool) ensures r == (a@ == b@) { unimplemented!() }      // `a == b` for a: String, b: &str
 pub open spec fn declares_variant(d: EnumDef, n: Seq<char>) -> bool {
     exists|i: int| 0 <= i < d.variants@.len() && (#[trigger] d.variants@[i]).0.0@ == n
